@@ -77,8 +77,25 @@ void run_round(vh::Rng &r, AsyncPipe &pipe, vh::Sig &sig, std::string &desc, boo
                     default: return 1 + r.below(40);
                 }
             };
-            int k = (int)r.below(10);
-            if (inline_main) { st.kind = 0; st.sizes.push_back(s == 0 ? cfg.buff_size + 1 + r.below(cfg.buff_size) : pick_size()); if (s >= (int)r.below(3)) nsteps = s + 1; }
+            int k = (int)r.below(12);
+            // kind 3 "held group": appendLock, a lockless append that leaves the partial buffer non-empty, a pause longer
+            // than the flush interval WITH the lock still held (the background thread's timed hand-over meets a busy
+            // producer), optionally a second lockless append (sometimes larger than all buffers together: back-pressure
+            // inside the critical section), appendUnlock
+            auto held_group = [&](bool last) {
+                st.kind = 3;
+                st.sizes.push_back(1 + r.below(cfg.buff_size > 1 ? cfg.buff_size - 1 : 1));
+                st.pause_us = (int)(cfg.interval * 1000 * (1 + r.below(cfg.interval >= 50 ? 1 : 3)) + r.below(500));
+                vh::counter(last ? "held_groups_last_before_cleanup" : "held_groups");
+                if (!last && r.chance(1, 2)) { bool big = r.chance(1, 2); if (big) vh::counter("held_groups_with_backpressure_inside"); st.sizes.push_back(big ? cfg.buff_size * (cfg.buff_max_num + 1) + r.below(50) : pick_size()); }
+            };
+            if (inline_main) {
+                bool last = s >= (int)r.below(3);
+                if (last && s > 0 && r.chance(1, 2)) held_group(true);
+                else { st.kind = 0; st.sizes.push_back(s == 0 ? cfg.buff_size + 1 + r.below(cfg.buff_size) : pick_size()); }
+                if (last) nsteps = s + 1;
+            }
+            else if (k >= 10) held_group(s + 1 == nsteps && r.chance(1, 2));
             else if (k < 6) { st.kind = 0; st.sizes.push_back(pick_size()); }
             else if (k < 8) { st.kind = 1; int g = 2 + (int)r.below(3); for (int i = 0; i < g; ++i) st.sizes.push_back(pick_size()); }
             else { st.kind = 2; st.pause_us = (int)r.below(cfg.interval * 1500 + 200); }
@@ -128,6 +145,12 @@ void run_round(vh::Rng &r, AsyncPipe &pipe, vh::Sig &sig, std::string &desc, boo
                     auto t0 = std::chrono::steady_clock::now();
                     pipe.append(b.get(), st.sizes[0]);
                     if (std::chrono::steady_clock::now() - t0 > std::chrono::microseconds(300)) ++P.slow_appends;
+                } else if (st.kind == 3) {
+                    pipe.appendLock();
+                    { auto b = make(st.sizes[0]); pipe.appendLockless(b.get(), st.sizes[0]); }
+                    vc::sleep_us(st.pause_us);
+                    if (st.sizes.size() > 1) { auto b = make(st.sizes[1]); pipe.appendLockless(b.get(), st.sizes[1]); }
+                    pipe.appendUnlock();
                 } else {
                     pipe.appendLock();
                     for (auto z : st.sizes) { auto b = make(z); pipe.appendLockless(b.get(), z); }
